@@ -54,6 +54,7 @@ func (w *vpWorld) admitValue(h chainhash.Hash) {
 // 2-byte index prefix is either always shared or never shared with the
 // earlier ones (two regimes instead of every partition).
 func (w *vpWorld) admit(h chainhash.Hash) {
+	vpWorldCur = w
 	if len(w.hashes) == 0 {
 		// no digest is the all-zero value (PrevBlock of genesis)
 		w.hashes = append(w.hashes, chainhash.Hash{})
@@ -76,14 +77,39 @@ func (w *vpWorld) admit(h chainhash.Hash) {
 	w.hashes = append(w.hashes, h)
 }
 
+// vpWorldCur: the world the current harness run admits its hashes to.
+var vpWorldCur *vpWorld
+
 func vpNewHeader(prev chainhash.Hash) wire.BlockHeader {
-	return wire.BlockHeader{
+	h := wire.BlockHeader{
 		Version:   1,
 		PrevBlock: prev,
 		Timestamp: time.Unix(int64(vpU32("hdr.ts")), 0),
 		Bits:      vpU32("hdr.bits"),
 		Nonce:     vpU32("hdr.nonce"),
 	}
+	if !vpSymbolic() && vpWorldCur != nil {
+		// On a native replay the real SHA-256 decides the index prefix: search
+		// for a nonce whose hash is in the regime the counterexample assumes.
+		w := vpWorldCur
+		for n := uint32(0); n < 1<<24; n++ {
+			h.Nonce = n
+			hh := h.BlockHash()
+			ok := true
+			for i, o := range w.hashes {
+				if hh == o {
+					ok = false
+				}
+				if i >= w.noPrefix && (hh[0] == o[0] && hh[1] == o[1]) != w.samePrefix {
+					ok = false
+				}
+			}
+			if ok {
+				break
+			}
+		}
+	}
+	return h
 }
 
 // vpRefLocator is the reference block locator: the hash itself, then
